@@ -8,6 +8,7 @@ from collections import Counter
 
 from .. import history as H
 from ..common import dc, dedupe, permuted
+from ..common import nodes_with_metadata
 from ..engine import Clause, Violation
 
 ASSUMPTIONS = [
@@ -187,8 +188,10 @@ def observe(h, U, probes, real):
     o["get_edges"] = Counter(edges)
     o["num_edges"] = h.num_edges()
     o["len"] = len(h)
-    o["sources_targets"] = Counter(
-        (tuple(sorted(s)), tuple(sorted(t))) for s, t in zip(h.get_sources(), h.get_targets()))
+    # the two listings are compared separately: nothing says that position i of one belongs
+    # to position i of the other (direction is pinned by get_edges)
+    o["get_sources"] = Counter(tuple(sorted(s)) for s in h.get_sources())
+    o["get_targets"] = Counter(tuple(sorted(t)) for t in h.get_targets())
     o["get_weights"] = Counter(h.get_weights())
     o["get_weights_dict"] = {cdedge(k): v for k, v in h.get_weights(asdict=True).items()}
     o["edges_meta"] = {cdedge(k): dc(v) for k, v in h.get_edges(metadata=True).items()}
@@ -235,7 +238,7 @@ def observe(h, U, probes, real):
     o["get_neighbors"], o["degree"], o["measures.degree"] = nei, deg, mdeg
     o["in_degree"], o["out_degree"] = ind, outd
     o["is_isolated"], o["node_meta"] = iso, nmeta
-    o["nodes_meta"] = {k: dc(v) for k, v in h.get_nodes(metadata=True).items()}
+    o["nodes_meta"] = {k: dc(v) for k, v in nodes_with_metadata(h).items()}
     o["degree_sequence"] = {None: dict(h.degree_sequence())}
     o["degree_distribution"] = {None: dict(h.degree_distribution())}
     o["measures.degree_sequence"] = dict(m_dseq(h))
